@@ -22,6 +22,7 @@ import VModel.Event
 import VModel.Hash
 import VModel.B64
 import VGen.Consts
+import VGen.C17
 namespace V
 namespace EventParse
 open Json GoJson Redact
@@ -377,9 +378,11 @@ def authEventIDs (e : PDU) : Except Err (Option (List Bytes)) :=
       | [] => .error (.panic "eventV3.go:AuthEventIDs RoomID[1:]")
       | _ :: rest => .ok (some ((0x24 :: rest) :: e.f.authEvents.getD []))
 
-/-- versions of `lenientByteLimitRoomVersions` (eventV2.go): all sixteen registered versions -/
-def lenientVersions : List Bytes := [b!"1", b!"2", b!"3", b!"4", b!"5", b!"6", b!"7", b!"8", b!"9", b!"10", b!"11", b!"12",
-  b!"org.matrix.hydra.11", b!"org.matrix.msc4014", b!"org.matrix.msc3787", b!"org.matrix.msc3667"]
+/-- versions of `lenientByteLimitRoomVersions` (eventV2.go), from the regenerated facts -/
+def lenientVersions : List Bytes := VGen.lenientByteLimitRoomVersions.map sb
+
+/-- the versions `CheckFields` exempts from the sender well-formedness check (case labels of its switch) -/
+def senderExempt (ver : Bytes) : Bool := VGen.senderCheckExempt.any (fun v => sb v == ver)
 
 def byteLimitErr (ver : Bytes) : Err := if lenientVersions.contains ver then errTooLargePersistable else errTooLarge
 
@@ -396,8 +399,8 @@ def checkFields (e : PDU) : Except Err Unit :=
       | some sk => decide (runeCount sk > maxIDLength)
       | none => false) then .error errTooLarge
     else if runeCount e.f.sender > maxIDLength then .error errTooLarge
-    else if e.ver != b!"org.matrix.msc4014" && !e.f.sender.contains 0x3A then .error errOther
-    else if e.ver != b!"org.matrix.msc4014" && e.f.sender.head? != some 0x40 then .error errOther
+    else if !senderExempt e.ver && !e.f.sender.contains 0x3A then .error errOther
+    else if !senderExempt e.ver && e.f.sender.head? != some 0x40 then .error errOther
     else if e.f.type.length > maxIDLength then .error (byteLimitErr e.ver)
     else if (match e.f.stateKey with
       | some sk => decide (sk.length > maxIDLength)
